@@ -151,8 +151,9 @@ type sched struct {
 	joinTok    byte
 	raceBefore int
 
-	stepCap int
-	quiet   int
+	stepCap   int
+	quiet     int
+	loopTicks int
 }
 
 // S is the single scheduler of this process.
@@ -769,6 +770,7 @@ func Run(opts RunOpts, body func()) *Exec {
 	s.verdict, s.verdictMsg = VNone, ""
 	s.aborting = false
 	s.quiet = 0
+	s.loopTicks = 0
 	s.prefix, s.prefixSig = opts.Prefix, opts.PrefixSig
 	s.permute = opts.Permute
 	s.hash = 14695981039346656037
@@ -835,3 +837,22 @@ func Quiet(fn func()) {
 
 //go:norace
 func endQuiet() { S.quiet-- }
+
+// LoopTick is inserted by the instrumenter at the top of the body of every
+// (non-range) `for` loop of the library. It is not a scheduling point; it counts
+// iterations and turns a spin that never reaches one into a horizon verdict.
+//
+//go:norace
+func LoopTick() {
+	if !S.active || S.aborting {
+		return
+	}
+	S.loopTicks++
+	if S.loopTicks > 2_000_000 {
+		RaceDisable()
+		S.setVerdict(VHorizon, "loops of the library iterated 2,000,000 times in one execution without it terminating (livelock / endless loop)")
+		S.noteStack(S.cur)
+		RaceEnable()
+		runtime.Goexit()
+	}
+}
